@@ -1,5 +1,178 @@
 import SmtpV.Model.Server
-import SmtpV.Spec.Monitors
-/-! # C13 (theorems follow) -/
+import SmtpV.Model.StatusChans
+import SmtpV.Proofs.StatusChans
+/-!
+# C13 — LMTP: one status per accepted recipient, in order, correctly attributed
+
+Three layers: the specification of attribution (`Spec.Mon.expectedStatuses`, also the judge of the
+implementation's traces), the channel mechanism of conn.go's `statusCollector` (`Model/StatusChans.lean`), and
+the bookkeeping the server model uses (`Server.applyStatuses` / `Server.collect`, tied to the code by the
+`conv` correspondence).  The theorems connect the three.
+-/
 namespace SmtpV.Props.C13
+open SmtpV SmtpV.Spec SmtpV.Spec.Mon SmtpV.StatusChans
+
+/-- **C13_mechanism.**  The per-address buffered channels, filled with the return value and read in RCPT order,
+    deliver exactly the specified attribution — for every recipient list (duplicates, any order) and every
+    sequence of in-contract `SetStatus` calls. -/
+theorem C13_mechanism (rcpts : List Bytes) (calls : List (Bytes × BRes)) (ret : BRes) (cs : Chans)
+    (h : setAll (create rcpts) calls = some cs) :
+    run rcpts calls ret = some (expectedStatuses rcpts calls ret) :=
+  run_eq_spec rcpts calls ret cs h
+
+theorem go_fst (calls : List (Bytes × BRes)) (ret : BRes) (rest seen : List Bytes) :
+    (expectedStatuses.go calls ret rest seen).map (·.1) = rest := by
+  induction rest generalizing seen with
+  | nil => simp [expectedStatuses.go]
+  | cons a rest ih => simp [expectedStatuses.go, ih]
+
+/-- **C13_one_per_recipient.**  Exactly one status per accepted recipient, in RCPT order, each labelled with its
+    recipient. -/
+theorem C13_one_per_recipient (rcpts : List Bytes) (calls : List (Bytes × BRes)) (ret : BRes) :
+    (expectedStatuses rcpts calls ret).map (·.1) = rcpts := by
+  simp [expectedStatuses, go_fst]
+
+theorem collect_go_eq (q : List (Bytes × BRes)) (fill : BRes) (rest seen : List Bytes) :
+    Server.collect.go q fill rest seen = expectedStatuses.go q fill rest seen := by
+  induction rest generalizing seen with
+  | nil => simp [Server.collect.go, expectedStatuses.go]
+  | cons a rest ih => simp [Server.collect.go, expectedStatuses.go, ih, Server.countOf, Mon.countOf]
+
+/-- **C13_model_is_spec.**  The server model collects the final replies with the specification's own function. -/
+theorem C13_model_is_spec (rcpts : List Bytes) (q : List (Bytes × BRes)) (fill : BRes) :
+    Server.collect rcpts q fill = expectedStatuses rcpts q fill := by
+  simp [Server.collect, expectedStatuses, collect_go_eq]
+
+/-- the channel state that corresponds to the model's flat queue `q` of accepted calls -/
+def Agree (rcpts : List Bytes) (cs : Chans) (q : List (Bytes × BRes)) : Prop :=
+  ∀ b, (b ∈ rcpts → ∃ c, chanOf cs b = some c ∧ c.cap = Mon.countOf b rcpts ∧ c.q = mine q b) ∧
+       (b ∉ rcpts → chanOf cs b = none)
+
+theorem mine_length (q : List (Bytes × BRes)) (a : Bytes) :
+    (mine q a).length = Server.countOf a (q.map (·.1)) := by
+  induction q with
+  | nil => simp [mine, Server.countOf]
+  | cons x q ih =>
+    simp only [mine, Server.countOf, List.filter_cons, List.map_cons] at ih ⊢
+    split <;> simp_all
+
+/-- **C13_contract_agrees.**  The model's check of the backend's calls accepts exactly when the channel
+    mechanism does not panic, and then the accepted calls are all of them. -/
+theorem C13_contract_agrees (rcpts : List Bytes) (calls : List (Bytes × BRes)) :
+    ∀ (q : List (Bytes × BRes)) (cs : Chans), Agree rcpts cs q →
+      ((Server.applyStatuses rcpts calls q).2 = true ↔ (setAll cs calls).isSome = true) ∧
+      ((Server.applyStatuses rcpts calls q).2 = true → (Server.applyStatuses rcpts calls q).1 = q ++ calls) := by
+  induction calls with
+  | nil => intro q cs _; simp [Server.applyStatuses, setAll]
+  | cons call rest ih =>
+    intro q cs hag
+    obtain ⟨a, r⟩ := call
+    by_cases hmem : a ∈ rcpts
+    · obtain ⟨c, hc, hcap, hq⟩ := (hag a).1 hmem
+      have hcont : rcpts.contains a = true := by simpa using hmem
+      by_cases hfull : Server.countOf a (q.map (·.1)) ≥ Server.countOf a rcpts
+      · -- the channel is full: both panic
+        have hlen : ¬ c.q.length < c.cap := by
+          rw [hq, mine_length, hcap]; simpa [Server.countOf, Mon.countOf] using hfull
+        have hs : setStatus cs a r = none := by
+          cases hs : setStatus cs a r with
+          | none => rfl
+          | some cs' =>
+            obtain ⟨c', hc', hlt, _⟩ := setStatus_spec cs a r cs' hs
+            rw [hc] at hc'; cases hc'; exact absurd hlt hlen
+        simp [Server.applyStatuses, hcont, hfull, setAll, hs]
+      · have hlen : c.q.length < c.cap := by
+          rw [hq, mine_length, hcap]; simpa [Server.countOf, Mon.countOf] using hfull
+        -- the send succeeds
+        have hex : ∃ cs', setStatus cs a r = some cs' := by
+          clear ih hag
+          induction cs with
+          | nil => simp [chanOf] at hc
+          | cons c0 cs ihc =>
+            simp only [chanOf_cons] at hc
+            simp only [setStatus]
+            split at hc
+            · rename_i h0; cases hc; simp [h0, hlen]
+            · rename_i h0
+              obtain ⟨cs', h'⟩ := ihc hc
+              simp [h0, h']
+        obtain ⟨cs', hs⟩ := hex
+        obtain ⟨c', hc', _, hupd⟩ := setStatus_spec cs a r cs' hs
+        rw [hc] at hc'; cases hc'
+        have hag' : Agree rcpts cs' (q ++ [(a, r)]) := by
+          intro b
+          constructor
+          · intro hb
+            rw [hupd b]
+            by_cases hba : b = a
+            · subst hba
+              refine ⟨{ c with q := c.q ++ [r] }, by simp, hcap, ?_⟩
+              simp [mine, hq, List.filter_append]
+            · obtain ⟨cb, hcb, hcapb, hqb⟩ := (hag b).1 hb
+              refine ⟨cb, by simp [hba, hcb], hcapb, ?_⟩
+              have : ((a, r).1 == b) = false := by simp [Ne.symm hba]
+              simp [mine, hqb, List.filter_append, List.filter_cons, this]
+          · intro hb
+            rw [hupd b]
+            have hba : b ≠ a := fun e => hb (e ▸ hmem)
+            simp [hba, (hag b).2 hb]
+        obtain ⟨i1, i2⟩ := ih (q ++ [(a, r)]) cs' hag'
+        have hnf : ¬ Server.countOf a (q.map (·.1)) ≥ Server.countOf a rcpts := hfull
+        simp only [Server.applyStatuses, hcont, Bool.not_true, Bool.false_eq_true, if_false, hnf, setAll, hs]
+        refine ⟨i1, fun h => ?_⟩
+        rw [i2 h]; simp
+    · -- unknown recipient: both panic
+      have hcont : rcpts.contains a = false := by simpa using hmem
+      have hnone := (hag a).2 hmem
+      have hs : setStatus cs a r = none := by
+        cases hs : setStatus cs a r with
+        | none => rfl
+        | some cs' =>
+          obtain ⟨c', hc', _, _⟩ := setStatus_spec cs a r cs' hs
+          rw [hnone] at hc'; cases hc'
+      simp [Server.applyStatuses, hmem, setAll, hs]
+
+theorem agree_create (rcpts : List Bytes) : Agree rcpts (create rcpts) [] := by
+  intro b
+  constructor
+  · intro hb
+    exact ⟨_, chanOf_create rcpts b hb, rfl, by simp [mine]⟩
+  · intro hb
+    cases h : chanOf (create rcpts) b with
+    | none => rfl
+    | some c =>
+      have hm : c ∈ create rcpts := List.mem_of_find?_eq_some h
+      have ha : (c.addr == b) = true := by
+        have := List.find?_some (p := fun (x : Chan) => x.addr == b) (l := create rcpts) h
+        exact this
+      simp only [create, List.mem_map] at hm
+      obtain ⟨a, ha', rfl⟩ := hm
+      have : a = b := by simpa using ha
+      subst this
+      exact absurd (List.mem_eraseDups.mp ha') hb
+
+/-- **C13_attribution.**  End of the chain for the model: when the backend's calls are accepted, the statuses the
+    server model writes — one per accepted recipient, in order — are what the channel mechanism of the code
+    delivers, which is the specified attribution. -/
+theorem C13_attribution (rcpts : List Bytes) (calls : List (Bytes × BRes)) (ret : BRes)
+    (h : (Server.applyStatuses rcpts calls []).2 = true) :
+    Server.collect rcpts (Server.applyStatuses rcpts calls []).1 ret = expectedStatuses rcpts calls ret ∧
+    run rcpts calls ret = some (expectedStatuses rcpts calls ret) := by
+  obtain ⟨i1, i2⟩ := C13_contract_agrees rcpts calls [] (create rcpts) (agree_create rcpts)
+  have hq := i2 h
+  simp only [List.nil_append] at hq
+  refine ⟨by rw [hq, C13_model_is_spec], ?_⟩
+  have := i1.mp h
+  cases hs : setAll (create rcpts) calls with
+  | none => simp [hs] at this
+  | some cs => exact C13_mechanism rcpts calls ret cs hs
+
+/-! ### non-vacuity: a duplicate recipient in a different position, statuses set out of RCPT order -/
+
+example : expectedStatuses ["a".b, "b".b, "a".b] [("b".b, .ok), ("a".b, .er "one".b), ("a".b, .er "two".b)] .ok =
+    [("a".b, .er "one".b), ("b".b, .ok), ("a".b, .er "two".b)] := by decide +kernel
+
+example : (Server.applyStatuses ["a".b, "b".b, "a".b] [("b".b, .ok), ("a".b, .er "one".b)] []).2 = true := by
+  decide +kernel
+
 end SmtpV.Props.C13
